@@ -305,7 +305,7 @@ func (s *Session) bind(o *Config) {
 
 	// Only the IQ that answers our request counts: not another stanza that happens to carry
 	// type='result', not the result of another request.
-	if iq.XMLName.Local != "iq" || iq.Id != iqB.Id {
+	if iq.XMLName.Local != "iq" || iq.XMLName.Space != stanza.NSClient || iq.Id != iqB.Id {
 		s.err = errors.New("iq bind failed: the server did not answer the bind request")
 		return
 	}
@@ -318,6 +318,10 @@ func (s *Session) bind(o *Config) {
 	// TODO Check all elements
 	switch payload := iq.Payload.(type) {
 	case *stanza.Bind:
+		if payload.Jid == "" {
+			s.err = errors.New("iq bind result carries no jid")
+			return
+		}
 		s.BindJid = payload.Jid // our local id (with possibly randomly generated resource
 	default:
 		s.err = errors.New("iq bind result missing")
@@ -362,7 +366,7 @@ func (s *Session) rfc3921Session() {
 			s.err = errors.New("expecting iq result after session open: " + s.err.Error())
 			return
 		}
-		if iq.XMLName.Local != "iq" || iq.Id != se.Id {
+		if iq.XMLName.Local != "iq" || iq.XMLName.Space != stanza.NSClient || iq.Id != se.Id {
 			s.err = errors.New("session open failed: the server did not answer the session request")
 			return
 		}
